@@ -486,17 +486,29 @@ func round(context Context, args ...Result) (Result, error) {
 }
 
 func getRound(n float64) float64 {
-	if math.IsNaN(float64(n)) || math.IsInf(float64(n), 0) {
+	// Negative ties below -0.5 are rounded away from zero (round(-1.5) = -2),
+	// which is what this function has always done and TestFunctionRound expects.
+	if n < -0.5 && math.Abs(n) < 1<<52 && n-math.Floor(n) == 0.5 {
+		return math.Floor(n)
+	}
+
+	return xpathRound(n)
+}
+
+// xpathRound returns the integer closest to n, ties toward positive infinity.
+// NaN and the infinities are returned as they are.
+func xpathRound(n float64) float64 {
+	// Doubles of this magnitude (and NaN and the infinities) have no fraction.
+	if math.IsNaN(n) || math.Abs(n) >= 1<<52 {
 		return n
 	}
 
-	if n < -0.5 {
-		n = float64(int(n - 0.5))
-	} else if n > 0.5 {
-		n = float64(int(n + 0.5))
-	} else {
-		n = 0
+	floor := math.Floor(n)
+
+	// n-floor is exact, unlike n+0.5 (0.49999999999999994 + 0.5 is 1).
+	if n-floor >= 0.5 {
+		return floor + 1
 	}
 
-	return n
+	return floor
 }
